@@ -28,7 +28,7 @@ Slim(toks) == [i \in 1..Len(toks) |->
                  ELSE toks[i] @@ [rle |-> FALSE]]
 
 CaseRec(x) ==
-  [enc |-> x.enc, stray |-> x.stray, first |-> x.first, amb |-> CaseAmbiguous(x),
+  [enc |-> x.enc, stray |-> x.stray, first |-> x.first, fam |-> x.fam, amb |-> CaseAmbiguous(x),
    entry |-> DictEntry(x.first.tag), lenclass |-> LenClass(x.first),
    rlebytes |-> Rle(CaseBytes(x)), toks |-> Slim(CaseToks(x)), total |-> Len(CaseBytes(x)), ds |-> x.ds]
 Emit == PrintT(<<"CASE", ToJson(CaseRec(c))>>)
